@@ -659,3 +659,17 @@ func loopVisitsAll(hdr, must *ssa.BasicBlock) bool {
 	}
 	return true
 }
+
+
+var cmpMirror = map[token.Token]token.Token{token.LSS: token.GTR, token.GTR: token.LSS, token.LEQ: token.GEQ, token.GEQ: token.LEQ, token.EQL: token.EQL, token.NEQ: token.NEQ}
+
+// orientCmp reads comparison bo as `x op y` for the requested operator, whichever way round it is stored.
+func orientCmp(bo *ssa.BinOp, op token.Token) (x, y ssa.Value, ok bool) {
+	if bo.Op == op {
+		return bo.X, bo.Y, true
+	}
+	if m, isCmp := cmpMirror[op]; isCmp && bo.Op == m {
+		return bo.Y, bo.X, true
+	}
+	return nil, nil, false
+}
